@@ -74,7 +74,7 @@ def fix_structure(ctx, rule='A5'):
     key_txt = norm(st.ast.targets[0].slice)
     # the index is the position of the variable among *all* design variables
     idx_defs = [a for a in walk_fn(fn) if isinstance(a, ast.Assign) and norm(a.targets[0]) == key_txt]
-    ok = bool(idx_defs) and 'self.all_des_vars.index(' in norm(idx_defs[0].value)
+    ok = bool(idx_defs) and 'self.all_des_vars.index(' in text_through_helpers(ctx.prog, fn0, idx_defs[0].value)
     ctx.ob(rule, fkey(fn, rule, 'index-among-all-des-vars'), ok, fn.where,
            'the fixed-value table is keyed by the position among all design variables (fixed ones included), '
            'the layout every consumer uses', short(idx_defs[0]) if idx_defs else 'missing')
